@@ -198,16 +198,26 @@ def line_scale(toks):
     return s
 
 
-def compare_streams(impl_path, model_path, rtol=None, atol_scale=0.0, max_report=20):
+def compare_streams(impl_path, model_path, rtol=None, atol_scale=0.0, max_report=20, ops_path=None, tol_by_model=None):
     """Line by line, token by token. Model lines may carry ` | tag…` (branch tags) which are returned
     as a histogram. rtol None = bit-exact floats (NaN==NaN, +0==-0)."""
     mism = []
     tags = {}
     n = 0
     bitdiff = 0
+    fo = open(ops_path) if (ops_path and tol_by_model) else None
+    base_rtol, base_atol_scale = rtol, atol_scale
     with open(impl_path) as fi, open(model_path) as fm:
         for li, lm in zip(fi, fm):
             n += 1
+            if fo is not None:
+                # per-model tolerance class: the catalogue model name is among the first tokens of the ops line
+                rtol, atol_scale = base_rtol, base_atol_scale
+                head = fo.readline().split(None, 8)[:8]
+                for tk in head:
+                    if tk in tol_by_model:
+                        rtol, atol_scale = tol_by_model[tk]
+                        break
             lm = lm.rstrip("\n")
             li = li.rstrip("\n")
             if " | " in lm:
@@ -261,8 +271,9 @@ def load_known():
 class Family:
     """One harness family run for a property."""
 
-    def __init__(self, name, rtol=None, atol_scale=0.0, args=None, thorough_only=False, compare=True, label=None):
+    def __init__(self, name, rtol=None, atol_scale=0.0, args=None, thorough_only=False, compare=True, label=None, tol_by_model=None):
         self.name = name
+        self.tol_by_model = tol_by_model
         self.label = label or name   # several runs of one family (e.g. K at two tolerances) need distinct labels
         self.rtol = rtol
         self.atol_scale = atol_scale
@@ -311,7 +322,8 @@ class Check:
             if rr.returncode != 0:
                 res["driver_error"] = rr.stderr.decode()[-2000:]
                 return res
-            res["cmp"] = compare_streams(os.path.join(d, fam.name + ".impl"), model, fam.rtol, fam.atol_scale)
+            res["cmp"] = compare_streams(os.path.join(d, fam.name + ".impl"), model, fam.rtol, fam.atol_scale,
+                                         ops_path=ops, tol_by_model=fam.tol_by_model)
         return res
 
     # -------------------------------------------------------------------------------------
